@@ -13,8 +13,9 @@ path.  After every event the system settles (virtual time passes) and the oracle
   * one-shot: exactly one connection is served, then the server shuts itself down.
 Plus: schedule exploration (<= 2 preemptions at system-call granularity) of a client connecting while another
 thread closes the server.
-The forking server needs process semantics (fork, descriptor inheritance, SIGCHLD) that the simulated kernel does
-not model; it is not covered (see DESIGN.md).
+The forking server runs on SimOS's fork emulation (a child process is a logical thread that re-enters
+_accept_method on a copy of the server whose sockets are duplicates of the same open file descriptions; os._exit,
+waitpid and SIGCHLD are emulated; conformance with real fork() is part of selftest/kernel_conformance.py).
 """
 from mc import env
 rpyc = env.install_sim()
@@ -119,6 +120,8 @@ class Sys(object):
             want_fds = 1 + len(live)
             if acct["fds"] != want_fds:
                 self.bad("descriptor-accounting:%s:holds=%d:live-clients=%d" % (kind, acct["fds"], len(live)), "after %r: %r" % (ev, acct))
+            if kind == "forking" and simos.procs().zombies():
+                self.bad("zombie-children-not-reaped:forking", "%r" % (simos.procs().zombies(),))
             if kind == "threaded" and acct["clients"] != len(live):
                 self.bad("tracked-clients:%s:%d-vs-%d-live" % (kind, acct["clients"], len(live)), "after %r" % (ev,))
             if kind == "pool" and (acct["fd_to_conn"] != len(live) or acct["poll"] > len(live)):
@@ -138,7 +141,8 @@ class Sys(object):
                     self.bad("listener-still-open-after-close:%s" % kind, "")
             if not live:
                 if acct["fds"] != 0:
-                    self.bad("descriptors-left-after-close:%s:%d" % (kind, acct["fds"]), "after %r: %r" % (ev, acct))
+                    self.bad("descriptors-left-after-close:%s:%d" % (kind, acct["fds"]) if kind != "forking" else
+                             "descriptors-left-after-close:forking", "after %r: %r" % (ev, acct))
                 if acct.get("clients") or acct.get("fd_to_conn") or acct.get("poll"):
                     self.bad("tables-left-after-close:%s" % kind, "%r" % (acct,))
                 hooks = [(i.connected, i.disconnected) for i in H.Svc.instances]
@@ -175,7 +179,8 @@ class Sys(object):
         self.check(("final",))
         # all server threads must have ended
         s = S.current_sched()
-        left = [t.name for t in s.threads if t.state != "done" and not t.name.startswith("client-") and t.name != "main"]
+        left = [t.name if not t.name.startswith("proc-") else "child-process" for t in s.threads
+                if t.state != "done" and not t.name.startswith("client-") and t.name != "main"]
         if left:
             self.bad("server-threads-still-running:%s" % self.kind, repr(sorted(set(left))))
         for c in self.clients.values():
@@ -406,9 +411,10 @@ def reuse_run(kind, oracle="C17"):
 
 
 CONFIGS = {
-    "quick": [("threaded", False, 7), ("pool", False, 7), ("oneshot", False, 5), ("threaded", True, 5), ("pool", True, 5)],
+    "quick": [("threaded", False, 7), ("pool", False, 7), ("oneshot", False, 5), ("threaded", True, 5), ("pool", True, 5),
+              ("forking", False, 5)],
     "thorough": [("threaded", False, 10), ("pool", False, 10), ("oneshot", False, 8), ("threaded", True, 8), ("pool", True, 8),
-                 ("oneshot", True, 7)],
+                 ("oneshot", True, 7), ("forking", False, 8), ("forking", True, 6)],
 }
 
 
@@ -488,5 +494,5 @@ def main(tier, replay_obj=None):
         res.bounds["fd-reuse/%s" % kind] = ex.stats.bound_completed
     res.assumptions = ["simulated kernel (conformance-tested against the real one in selftest) - no socket buffer limits, no RST/FIN subtleties",
                        "each event is followed by %.1f virtual seconds of settling" % SETTLE,
-                       "the forking server is not covered (no process model)"]
+                       "forking server: fork() is emulated for the one call shape rpyc uses (see mc/simos.py); signals other than SIGCHLD are not modelled"]
     return res.finish()
